@@ -9,6 +9,8 @@ import (
 	"errors"
 	"fmt"
 	"net"
+	"strconv"
+	"strings"
 
 	_ "github.com/mattn/go-sqlite3"
 )
@@ -42,7 +44,7 @@ func loadRecords(db *sql.DB) (map[string]*Record, error) {
 		if err := rows.Scan(&mac, &ip, &expiry, &hostname); err != nil {
 			return nil, fmt.Errorf("failed to scan row: %w", err)
 		}
-		hwaddr, err := net.ParseMAC(mac)
+		hwaddr, err := parseHWAddr(mac)
 		if err != nil {
 			return nil, fmt.Errorf("malformed hardware address: %s", mac)
 		}
@@ -56,6 +58,30 @@ func loadRecords(db *sql.DB) (map[string]*Record, error) {
 		return nil, fmt.Errorf("failed lease database row scanning: %w", err)
 	}
 	return records, nil
+}
+
+// parseHWAddr parses a hardware address as saveIPAddress writes it, ie
+// net.HardwareAddr.String(): colon-separated hex bytes. Unlike net.ParseMAC it
+// accepts any length: a DHCPv4 chaddr is 0 to 16 bytes long, and a lease written
+// for a client must not prevent the next start.
+func parseHWAddr(s string) (net.HardwareAddr, error) {
+	hwaddr := net.HardwareAddr{}
+	if s == "" {
+		return hwaddr, nil
+	}
+	for _, group := range strings.Split(s, ":") {
+		// one digit is accepted too: the column has numeric affinity, so a
+		// single all-decimal byte ("05") is read back without its leading zero
+		if len(group) < 1 || len(group) > 2 {
+			return nil, fmt.Errorf("invalid hardware address %q", s)
+		}
+		b, err := strconv.ParseUint(group, 16, 8)
+		if err != nil {
+			return nil, fmt.Errorf("invalid hardware address %q", s)
+		}
+		hwaddr = append(hwaddr, byte(b))
+	}
+	return hwaddr, nil
 }
 
 // saveIPAddress writes out a lease to storage
